@@ -27,7 +27,7 @@ ASSUMPTIONS = [
 ]
 KINDS = ["inst", "operand", "operand", "genreg", "genreg", "indreg", "stackreg", "basereg"]
 MUTATORS = ["none", "none", "none", "prefix-ext", "prefix-ext", "other-member", "wrong-width", "non-member", "swap-names", "last-operand", "unrelated-op", "def-empty", "def-non-member", "def-wrong-width", "case-variant"]
-FLOORS = {"kind=inst": 0.08, "kind=operand": 0.12, "kind=regfam": 0.16, "mut=prefix-ext": 0.06, "expect=found": 0.25, "near-miss": 0.3, "kind=deref-field": 0.06, "kind=deref-operator-capture": 0.04, "deref-operator-capture=register-family": 0.01, "kind=many-names": 0.01, "kind=names-differ-in-case-only": 0.08, "deref-keys=permuted": 0.04}
+FLOORS = {"kind=inst": 0.08, "kind=operand": 0.12, "kind=regfam": 0.16, "mut=prefix-ext": 0.06, "expect=found": 0.25, "near-miss": 0.3, "kind=deref-field": 0.06, "kind=deref-operator-capture": 0.04, "kind=ranged-occurrence-before-definition": 0.03, "deref-operator-capture=register-family": 0.01, "kind=many-names": 0.01, "kind=names-differ-in-case-only": 0.08, "deref-keys=permuted": 0.04}
 
 # operands with prefix / extension relatives (att, norm)
 RELATED = [
@@ -639,14 +639,80 @@ def many_names_cases(draw):
     return {"form": "many-names", "n": n, "level": level, "ref": ref, "shown": shown, "pattern": pattern, "listing": L, "spans": {"0": [n + 1]} if shown == ref else {}}
 
 
+@st.composite
+def ranged_occurrence_cases(draw):
+    """A later occurrence with a RANGED times followed, in the same operand list, by the definition of another capture that is used
+    again afterwards: how many operands the run takes decides what the new name binds.  Judged by the interchangeability of
+    `&r times {0,2}` with &r written 0, 1 or 2 times (the repeated item is a later occurrence, it defines nothing): the ranged rule
+    is found iff one of the three written-out rules is."""
+    regs = ["%xmm1", "%xmm2", "%rax", "%rbx", "%r8"]
+    S, R0 = draw(st.sampled_from(regs)), draw(st.sampled_from(regs))
+    k = draw(st.integers(0, 3))
+    D = R0 if draw(st.booleans()) else draw(st.sampled_from(regs))
+    extra = draw(st.lists(st.sampled_from(regs), max_size=2))
+    final = D if draw(st.integers(0, 3)) else draw(st.sampled_from(regs))
+    fam = draw(st.booleans()) and R0 in ("%rax", "%rbx")
+    rname = "&genreg-r" if fam else "&r"
+    ops1 = [R0] * k + [D] + extra
+    L = [["401000", "vmovdqa", [S, R0], [S, R0]], ["401004", "vpaddd", list(ops1), list(ops1)], ["401008", "vmovdqu", [final], [final]], ["40100c", "ret", [], []]]
+    lo, hi = draw(st.sampled_from([(0, 2), (0, 1), (1, 2), (0, 3)]))
+
+    def rule(mid):
+        return [{"vmovdqa": ["&s", rname]}, {"vpaddd": mid + ["&d"]}, {"vmovdqu": ["&d"]}]
+
+    ranged = rule([{rname: {"times": {"min": lo, "max": hi}}}])
+    written = [rule([rname] * n_) for n_ in range(lo, hi + 1)]
+    if draw(st.integers(0, 2)) == 0:
+        # optional items around the DEFINITION: the position of the later occurrence is reached with one binding first and, after
+        # backtracking, with another (push X ; push Y ; mov X,tail: the capture must end up bound by the first push) - F44
+        regs2 = ["%rax", "%rbx", "%rcx"]
+        X, Y = draw(st.sampled_from(regs2)), draw(st.sampled_from(regs2))
+        tail = draw(st.sampled_from(["%rcx", "%rdx"]))
+        cname = draw(st.sampled_from(["&a", "&genreg", "&genreg-q"]))
+        later = cname + (".64" if cname != "&a" and draw(st.booleans()) else "")
+        n_x = draw(st.integers(0, 2))
+        L = [["401000", "push", [X], [X]], ["401001", "push", [Y], [Y]], ["401002", "mov", [X] * n_x + [tail], [X] * n_x + [tail]], ["401005", "ret", [], []]]
+        opt = {"$or": ["push", "nop"], "times": {"min": 0, "max": 1}}
+
+        def rule2(mid):
+            return [dict(opt), {"push": [cname]}, dict(opt), {"mov": mid + [tail.lstrip("%")]}]
+
+        ranged = rule2([{later: {"times": {"min": lo, "max": hi}}}])
+        written = [rule2([later] * n_) for n_ in range(lo, hi + 1)]
+        fam = cname != "&a"
+    return {"form": "ranged-occurrence", "listing": L, "pattern": ranged, "written_out": written, "k": k, "bounds": [lo, hi], "regfam": bool(fam)}
+
+
 def strategy(tier):
-    return st.one_of(cases(), cases(), cases(), cases(), cases(), cases(), cases(), cases(), cases(), cases(), deref_capture_cases(), deref_capture_cases(), deref_operator_capture_cases(), deref_operator_capture_cases(), many_names_cases())
+    return st.one_of(cases(), cases(), cases(), cases(), cases(), cases(), cases(), cases(), cases(), cases(), deref_capture_cases(), deref_capture_cases(), deref_operator_capture_cases(), deref_operator_capture_cases(), many_names_cases(),
+                     ranged_occurrence_cases())
 
 
 def evaluate(case):
     ev = Eval()
     ev.subcases = 0
     L, pattern = case["listing"], case["pattern"]
+    if case.get("form") == "ranged-occurrence":
+        from vlib import jasm_io
+        from vlib.gen_listing import att_view
+        from vlib.render import render
+
+        text = render(att_view(L))
+        r = jasm_io.match(jasm_io.make_doc(pattern), text, mode="bool", search="first")
+        rs = [jasm_io.match(jasm_io.make_doc(w), text, mode="bool", search="first") for w in case["written_out"]]
+        ev.subcases = 1 + len(rs)
+        if any(x[0] == "inconclusive" for x in [r] + rs):
+            ev.inconclusive += 1
+        elif any(x[0] == "exc" for x in [r] + rs):
+            ev.dev("exception", form="ranged-occurrence", error=[list(x[:2]) for x in [r] + rs])
+        else:
+            want = any(x[1] for x in rs)
+            if r[1] is not want:
+                ev.dev("ranged-occurrence-differs-from-written-out", bounds=case["bounds"], ranged=r[1], written_out=[x[1] for x in rs], pattern=pattern)
+            ev.tags = ["kind=ranged-occurrence-before-definition", "expect=found" if want else "expect=notfound"] + (["ranged-occurrence=register-family"] if case["regfam"] else [])
+            ev.nontrivial = True
+        ev.sample = {"pattern": pattern, "stream": stream_sample(L)}
+        return ev
     if case.get("form") == "deref-capture":
         spans = _dc_spans(case)
         exp, _, _ = compare(ev, pattern, L, None, None, spans=spans)
